@@ -70,6 +70,11 @@ pub async fn handle_udp_over_tcp(stream: Arc<Stream>) -> Result<()> {
         }
     };
     udp_span.record("target", field::display(target_addr));
+    #[cfg(anytls_verif)]
+    crate::verif::emit(
+        "udp_target",
+        vec![("sid", stream_id.to_string()), ("addr", target_addr.to_string())],
+    );
 
     tracing::debug!("[UDP] Target UDP address: {}", target_addr);
 
